@@ -30,7 +30,7 @@ From ZI Require Export Model.DeclOps.
 
 Record lcls := mkLC { lc_bases : list cls; lc_asked : list iface; lc_kept : list iface;
                       lc_inherit : bool; lc_oasked : list iface; lc_okept : list iface;
-                      lc_meta : list iface }.
+                      lc_meta : list iface; lc_builtin : bool }.
 Record lobj := mkLO { lo_cls : cls; lo_live : bool; lo_asked : list iface; lo_kept : list iface }.
 Record ledger := mkL { lcs : list lcls; los : list lobj }.
 
@@ -64,68 +64,46 @@ Definition fresh_now (g : igraph) (L : ledger) (c : cls) (l : list iface) : list
 Definition lset_cls (L : ledger) (c : cls) (r : lcls) : ledger := mkL (upd (lcs L) c r) (los L).
 Definition lset_obj (L : ledger) (o : obj) (r : lobj) : ledger := mkL (lcs L) (upd (los L) o r).
 
-(* implementer / classImplements / classImplementsFirst *)
-Definition l_declare (g : igraph) (L : ledger) (c : cls) (l : list iface) : ledger :=
+(* implementer / classImplements / classImplementsFirst: [lh] is asked for, of [l] what is not
+   redundant is kept ([lh] / [l]: the most / the least a declaration-object argument may stand for) *)
+Definition l_declare (g : igraph) (L : ledger) (c : cls) (lh l : list iface) : ledger :=
   match nth_error (lcs L) c with
   | None => L
-  | Some r => lset_cls L c (mkLC (lc_bases r) (lc_asked r ++ l) (lc_kept r ++ fresh_now g L c l)
-                                 (lc_inherit r) (lc_oasked r) (lc_okept r) (lc_meta r))
+  | Some r => lset_cls L c (mkLC (lc_bases r) (lc_asked r ++ lh) (lc_kept r ++ fresh_now g L c l)
+                                 (lc_inherit r) (lc_oasked r) (lc_okept r) (lc_meta r) (lc_builtin r))
   end.
 
 (* implementer_only / classImplementsOnly: replaces everything, stops inheritance *)
-Definition l_only (L : ledger) (c : cls) (l : list iface) : ledger :=
+Definition l_only (L : ledger) (c : cls) (lh l : list iface) : ledger :=
   match nth_error (lcs L) c with
   | None => L
-  | Some r => lset_cls L c (mkLC (lc_bases r) l l false (lc_oasked r) (lc_okept r) (lc_meta r))
+  | Some r => lset_cls L c (mkLC (lc_bases r) lh l false (lc_oasked r) (lc_okept r) (lc_meta r) (lc_builtin r))
   end.
+
+(* built-in types and their instances cannot take object-level declarations (the call raises) *)
+Definition lclass_builtin (L : ledger) (c : cls) : bool :=
+  match nth_error (lcs L) c with Some r => lc_builtin r | None => false end.
 
 (* an object-level declaration of the net set: [asked] is asked for, [cand] is what may be kept *)
 Definition l_object (g : igraph) (L : ledger) (t : target)
            (fa fk : list iface -> list iface) : ledger :=
   match t with
   | TInst o => match nth_error (los L) o with
-               | Some r => if lo_live r
+               | Some r => if lo_live r && negb (lclass_builtin L (lo_cls r))
                            then lset_obj L o (mkLO (lo_cls r) true (fa (lo_asked r))
                                                    (fresh_now g L (lo_cls r) (fk (lo_kept r))))
                            else L
                | None => L
                end
   | TCls c => match nth_error (lcs L) c with
-              | Some r => lset_cls L c (mkLC (lc_bases r) (lc_asked r) (lc_kept r) (lc_inherit r)
+              | Some r => if lc_builtin r then L else
+                          lset_cls L c (mkLC (lc_bases r) (lc_asked r) (lc_kept r) (lc_inherit r)
                                              (fa (lc_oasked r))
                                              (filter (fun x => negb (mem_nat x (closure g (lc_meta r)))) (fk (lc_okept r)))
-                                             (lc_meta r))
+                                             (lc_meta r) (lc_builtin r))
               | None => L
               end
   end.
-
-Definition lstep (g : igraph) (L : ledger) (o : op) : ledger :=
-  match o with
-  | NewClass bs m =>
-      let n := length (lcs L) in
-      mkL (lcs L ++ [mkLC (filter (fun b => Nat.ltb b n) bs) [] [] true [] []
-                          (match m with Some l => l | None => [] end)]) (los L)
-  | NewInstance c =>
-      if Nat.ltb c (length (lcs L)) then mkL (lcs L) (los L ++ [mkLO c true [] []]) else L
-  | DropInstance o =>
-      match nth_error (los L) o with
-      | Some r => lset_obj L o (mkLO (lo_cls r) false (lo_asked r) (lo_kept r))
-      | None => L
-      end
-  | Implementer c l => l_declare g L c l
-  | ClassImplements c l => l_declare g L c l
-  | ClassImplementsFirst c x => l_declare g L c [x]
-  | ImplementerOnly c l => l_only L c l
-  | ClassImplementsOnly c l => l_only L c l
-  | DirectlyProvides t l => l_object g L t (fun _ => l) (fun _ => l)
-  | Provider t l => l_object g L t (fun _ => l) (fun _ => l)
-  | AlsoProvides t l => l_object g L t (fun a => a ++ l) (fun k => k ++ l)
-  | NoLongerProvides t x =>
-      let rm := filter (fun i => negb (ext g i x)) in
-      l_object g L t rm rm
-  end.
-
-Definition lrun (g : igraph) (ops : list op) : ledger := fold_left (lstep g) ops linit.
 
 (* the directly named interfaces behind the two bounds *)
 Definition lo_direct (L : ledger) (t : target) : list iface :=
@@ -145,14 +123,6 @@ Definition hi_direct (L : ledger) (t : target) : list iface :=
   | TCls c => match nth_error (lcs L) c with Some r => lc_oasked r ++ lc_meta r | None => [] end
   end.
 
-Definition lo_provided (g : igraph) (L : ledger) (t : target) := closure g (lo_direct L t).
-Definition hi_provided (g : igraph) (L : ledger) (t : target) := closure g (hi_direct L t).
-Definition lo_implemented (g : igraph) (L : ledger) (c : cls) := closure g (impl_lo L c).
-Definition hi_implemented (g : igraph) (L : ledger) (c : cls) := closure g (impl_hi L c).
-
-(* the sandwich *)
-Definition admissible (lo hi a : list iface) : Prop := incl lo a /\ incl a hi.
-
 (* what directlyProvidedBy may answer (as a set): between kept and asked *)
 Definition lo_dpb (L : ledger) (t : target) : list iface :=
   match t with
@@ -164,3 +134,48 @@ Definition hi_dpb (L : ledger) (t : target) : list iface :=
   | TInst o => match nth_error (los L) o with Some r => lo_asked r | None => [] end
   | TCls c => match nth_error (lcs L) c with Some r => lc_oasked r | None => [] end
   end.
+
+(* what a declaration-object argument stands for: at least / at most *)
+Definition narg_lo (L : ledger) (a : arg) : list iface :=
+  match a with AI i => [i] | ADirectlyProvidedBy t => lo_dpb L t | AProvidedBy t => lo_direct L t end.
+Definition narg_hi (L : ledger) (a : arg) : list iface :=
+  match a with AI i => [i] | ADirectlyProvidedBy t => hi_dpb L t | AProvidedBy t => hi_direct L t end.
+Definition nargs_lo (L : ledger) (l : list arg) : list iface := flat_map (narg_lo L) l.
+Definition nargs_hi (L : ledger) (l : list arg) : list iface := flat_map (narg_hi L) l.
+
+Definition lstep (g : igraph) (L : ledger) (o : op) : ledger :=
+  match o with
+  | NewClass bs m bi =>
+      let n := length (lcs L) in
+      mkL (lcs L ++ [mkLC (dedup (filter (fun b => Nat.ltb b n) bs)) [] [] true [] []
+                          (match m with Some l => l | None => [] end) bi]) (los L)
+  | NewInstance c =>
+      if Nat.ltb c (length (lcs L)) then mkL (lcs L) (los L ++ [mkLO c true [] []]) else L
+  | DropInstance o =>
+      match nth_error (los L) o with
+      | Some r => lset_obj L o (mkLO (lo_cls r) false (lo_asked r) (lo_kept r))
+      | None => L
+      end
+  | Implementer c l => l_declare g L c (nargs_hi L l) (nargs_lo L l)
+  | ClassImplements c l => l_declare g L c (nargs_hi L l) (nargs_lo L l)
+  | ClassImplementsFirst c x => l_declare g L c [x] [x]
+  | ImplementerOnly c l => l_only L c (nargs_hi L l) (nargs_lo L l)
+  | ClassImplementsOnly c l => l_only L c (nargs_hi L l) (nargs_lo L l)
+  | DirectlyProvides t l => l_object g L t (fun _ => nargs_hi L l) (fun _ => nargs_lo L l)
+  | Provider t l => l_object g L t (fun _ => nargs_hi L l) (fun _ => nargs_lo L l)
+  | AlsoProvides t l => l_object g L t (fun a => a ++ nargs_hi L l) (fun k => k ++ nargs_lo L l)
+  | NoLongerProvides t x =>
+      let rm := filter (fun i => negb (ext g i x)) in
+      l_object g L t rm rm
+  end.
+
+Definition lrun (g : igraph) (ops : list op) : ledger := fold_left (lstep g) ops linit.
+
+Definition lo_provided (g : igraph) (L : ledger) (t : target) := closure g (lo_direct L t).
+Definition hi_provided (g : igraph) (L : ledger) (t : target) := closure g (hi_direct L t).
+Definition lo_implemented (g : igraph) (L : ledger) (c : cls) := closure g (impl_lo L c).
+Definition hi_implemented (g : igraph) (L : ledger) (c : cls) := closure g (impl_hi L c).
+
+(* the sandwich *)
+Definition admissible (lo hi a : list iface) : Prop := incl lo a /\ incl a hi.
+
